@@ -35,8 +35,8 @@ pub fn run(ctx: &mut Ctx) {
     let (mut is, names) = new_iset();
     let cache = sorted_cache(&is);
     let judge = Judge { frame: true, reference: true };
-    let maxlen = ctx.n(4, 6);
-    let draws = ctx.n(4, 16);
+    let maxlen = ctx.n(4, 7);
+    let draws = ctx.n(4, 24);
     let mut case: u64 = 0;
 
     // (1) overlap family: all length pairs x all offsets
@@ -125,7 +125,7 @@ pub fn run(ctx: &mut Ctx) {
     }
 
     // (1b) beyond the exhaustive grid: long vectors (up to 48) and arbitrary offsets
-    let nlong = ctx.n(40000, 1000000);
+    let nlong = ctx.n(40000, 8000000);
     for k in 0..nlong as u64 {
         case += 1;
         if !ctx.mine(case) {
